@@ -55,6 +55,17 @@ package task
 //@   on aftercall .ToTargetEndpoint : te = result ; teOk = true
 //@   on mapupdate bindMap : assert teOk && value == te
 //@   on call (Tasks).BuildPropertyMaps : assert arg1 == bindMap
+//   C13: two different endpoints claiming the same global alias are rejected: the endpoint already registered under the
+//   alias is compared as it is (all of it, host included) with the one being registered, and a difference is an error
+//@   ghostvar ex channel.Endpoint = nil
+//@   ghostvar exSeen bool = false
+//@   ghostvar differs bool = false
+//@   [C13] on lookup bindMap : ex = result0 ; exSeen = true
+//@   [C13] on call channel.EndpointEquals : assert exSeen && arg0 == ex && arg1 == endpoint
+//@   [C13] on aftercall channel.EndpointEquals : differs = differs || !result
+//@   [C13] ensures differs ==> err != nil
+//@   [C13] loop 1 invariant !differs
+//@   [C13] loop 2 invariant !differs
 //@   ghostvar multi bool = false
 //@   ghostvar nCrit int = 0
 //@   ghostvar lastCrit bool = false
